@@ -102,6 +102,7 @@ def run(run):
         from . import loopback
         loopback.histories(run, r, uniq, 160)
         loopback.datagram_histories(run, r, uniq, 120)
+        loopback.datagram_histories(run, r, uniq, 60, big=True)
     run.floor('histories per front-end (min)', min(run.counters.get('histories:%s' % f, 0) for f in FE.ALL), 80 if run.shard is None else 5)
     run.floor('clean-region histories', run.counters.get('clean_region_cases', 0), 500 if run.shard is None else 30)
     run.floor('responses matched to requests', run.counters.get('responses_matched', 0), 3000 if run.shard is None else 200)
